@@ -25,12 +25,14 @@ func New[T comparable]() *Notifier[T] {
 	}
 }
 
-func (v *Notifier[T]) removeListener(value T) {
+func (v *Notifier[T]) removeListener(value T, registeredListener *listener) {
 	v.mutex.Lock()
 	defer v.mutex.Unlock()
 
+	// only deregister from the entry this listener was registered with: the entry could already have been notified
+	// (and removed), and a later listener for the same value must not be affected.
 	valueListeners, exists := v.listeners.Get(value)
-	if !exists {
+	if !exists || valueListeners != registeredListener {
 		return
 	}
 	valueListeners.count--
@@ -50,15 +52,16 @@ func (v *Notifier[T]) Listener(value T) *Listener {
 	if valueListener, exists := v.listeners.Get(value); exists {
 		valueListener.count++
 		return newListener(valueListener.channel, func() {
-			v.removeListener(value)
+			v.removeListener(value, valueListener)
 		})
 	}
 
 	msgProcessedChan := make(chan struct{})
-	v.listeners.Set(value, &listener{msgProcessedChan, 1})
+	newValueListener := &listener{msgProcessedChan, 1}
+	v.listeners.Set(value, newValueListener)
 
 	return newListener(msgProcessedChan, func() {
-		v.removeListener(value)
+		v.removeListener(value, newValueListener)
 	})
 }
 
